@@ -45,7 +45,8 @@ LEVEL_TEXT = (
 LEVEL_NOTE = "Trusted: plotly / matplotlib object model as the observation point. Bounded sizes; finite value alphabet."
 
 ITEMS = {"t": [2000, 2001, 0], "p": ["p1", "p2"], "q": ["q1", "q2"]}
-NAMES = {"t": "Time", "p": "Product", "q": "Quality"}
+NAMES = {"t": "Time", "p": "Product", "q": "Quality", "g": "Grade"}
+ITEMS["g"] = [np.int64(100 + 3 * i) for i in range(25)]  # many items (more than a colour map has colours), numpy integers
 PROCS = ["sysenv", "use", "reuse", "waste"]
 FLOW_POOL = [("", 0), ("t", 1), ("tp", 2), ("pt", 3), ("pqt", 4)]
 
@@ -430,6 +431,10 @@ def plot_configs(tier):
                         continue
                     for xs in xspecs:
                         yield arr_dims, roles, style, xs
+    # a line dimension with 25 items that are numpy integers
+    for arr_dims, roles in (("tg", {"x": "t", "line": "g"}), ("gt", {"x": "t", "line": "g"}), ("gtp", {"x": "t", "line": "g", "subplot": "p"})):
+        for style in ("names", "letters"):
+            yield arr_dims, roles, style, None
 
 
 def bounds(tier):
